@@ -1,6 +1,7 @@
 package c10
 
 import (
+	"bytes"
 	"context"
 	"fmt"
 	"runtime/debug"
@@ -10,7 +11,10 @@ import (
 	"sync/atomic"
 	"time"
 
+	"github.com/wundergraph/graphql-go-tools/execution/engine"
 	"github.com/wundergraph/graphql-go-tools/execution/graphql"
+	"github.com/wundergraph/graphql-go-tools/v2/pkg/astprinter"
+	"github.com/wundergraph/graphql-go-tools/v2/pkg/engine/resolve"
 
 	"verifharness/internal/fed"
 	"verifharness/internal/fw"
@@ -214,7 +218,50 @@ const (
 // execute runs one operation. The scheduler only decides the order in which held requests are
 // released; it never times the engine. Settling (no boundary activity for a few polls before the
 // next release) only serves to get several deferred requests parked together.
-func execute(gw *fed.Gateway, text string, vars []byte, mode string, ch *chooser, faultKind string, faultNth int) *run {
+func execute(gw *fed.Gateway, text string, vars []byte, mode string, ch *chooser, faultKind string, faultNth int, opts ...engine.ExecutionOptions) *run {
+	return executeWith(gw, mode, ch, faultKind, faultNth, func(w *recWriter) error {
+		req := &graphql.Request{Query: text, Variables: vars}
+		return gw.Engine.Execute(context.Background(), req, w, opts...)
+	})
+}
+
+// captured is what the engine hands to the planner and the resolver for one request: the
+// normalised operation (exactly what the plan cache key is computed from) and the request context.
+type captured struct {
+	Norm    string
+	Vars    []byte
+	Remap   map[string]string
+	Request resolve.Request
+	ok      bool
+}
+
+// executeCapturing is execute (un-gated) that also captures the normalised operation and context.
+func executeCapturing(gw *fed.Gateway, text string, vars []byte, cp *captured) *run {
+	return executeWith(gw, "free", nil, "", 0, func(w *recWriter) error {
+		req := &graphql.Request{Query: text, Variables: vars}
+		capture := engine.VerifWithResolveContext(func(rc *resolve.Context) {
+			var buf bytes.Buffer
+			if err := astprinter.Print(req.Document(), &buf); err != nil {
+				return
+			}
+			cp.Norm = buf.String()
+			if rc.Variables != nil {
+				cp.Vars = rc.Variables.MarshalTo(nil)
+			}
+			cp.Remap = map[string]string{}
+			for k, v := range rc.RemapVariables {
+				cp.Remap[k] = v
+			}
+			cp.Request = rc.Request
+			cp.ok = true
+		})
+		return gw.Engine.Execute(context.Background(), req, w, capture)
+	})
+}
+
+// executeWith runs fn (which drives the system under test with the recording writer) under the
+// scheduler.
+func executeWith(gw *fed.Gateway, mode string, ch *chooser, faultKind string, faultNth int, fn func(w *recWriter) error) *run {
 	progress := &atomic.Int64{}
 	w := newRecWriter(progress)
 	if ch == nil {
@@ -237,8 +284,7 @@ func execute(gw *fed.Gateway, text string, vars []byte, mode string, ch *chooser
 				out.panicMsg, out.panicSig, out.stack = fmt.Sprint(r), fw.PanicSignature(fmt.Sprint(r), st), clip(st, 5000)
 			}
 		}()
-		req := &graphql.Request{Query: text, Variables: vars}
-		out.err = gw.Engine.Execute(context.Background(), req, w)
+		out.err = fn(w)
 	}()
 	last := progress.Load()
 	lastChange := time.Now()
